@@ -41,7 +41,7 @@ CLAIMS = {
  "C10": ("DESIGN.md §4 C10",
          "TLA+ spec TxFilter on top of Bloom: MatchTxAndUpdate as BIP37 IsRelevantAndUpdate (result and post-state exact, bit-level via Murmur3) and the block scan as the relation Lower (least fixpoint of relevance under exact-set semantics) <= reported <= Upper (final filter bits); real transactions with random intra-block spend DAGs, every script shape, three update flags, topological / reverse / random orders are scanned through the three APIs and judged by TLC trace validation; the scan ALGORITHM itself (spender index + recursive re-check, skip of matched transactions) is transcribed in MC_TxScan and model-checked against the least fixpoint for every block order (1.9 M states, negative control without the re-check), and the same TLC run generates sampled configurations that are replayed on the real scanners in all six orders",
          "model checking of the underlying abstract filter plus TLC trace validation of recorded transaction matches and block scans against the BIP37 definition and the scan contract",
-         "txscript push extraction / script class are environment facts; named deviations for unparsable scripts and empty pushes"),
+         "txscript push extraction / script class are environment facts; named deviation for unparsable scripts (an empty push is a data push and is tested)"),
  "C20": ("DESIGN.md §4 C20",
          "static: a lock-discipline model (paths of LOCK/UNLOCK/RD/WR atoms) is EXTRACTED from the current bloom/filter.go with go/ast and TLC checks every interleaving of K=2,3 threads for accesses outside the mutex, lock leaks and self-deadlock (BloomConc.tla); dynamic: -race build, up to 32 goroutines on one shared tiny filter, every call ticketed; TLC trace validation decides 'no insertion lost / membership after completed insertion' with BIP37 indices, and TLC searches for a linearization of small rounds with reload/unload (Lin_BloomConc.tla); race-detector reports are events no action accepts; further round kinds: AtomRound (an insertion lands in exactly one message, with its tweak), TxRound / TxReloadRound (no outpoint update lost, none applied to a message that never matched), LoadedRound (IsLoaded agrees with the message at quiescence), GcsConc; the static model is skipped (and said so in the evidence) when the source shape is outside the extractor",
          "model checking of all interleavings of the extracted lock discipline plus trace validation / linearization search of recorded concurrent executions",
@@ -73,7 +73,7 @@ CLAIMS = {
  "C18": ("DESIGN.md §4 C18",
          "TLA+ spec TxSort: BIP69 as a relation (ordered permutation of whole elements, other fields equal, ties free); MC_TxSort checks the relation is non-empty and idempotent over a key alphabet with ties; real Sort / InPlaceSort / IsSorted calls on all permutations of small element sets with ties and random transactions up to hundreds of elements, with deep snapshots of the original before/after and after mutating the copy, judged by TLC trace validation",
          "small-scope model checking of the relation plus TLC trace validation",
-         "non-negative amounts"),
+         "amounts are signed 64-bit numbers (negative amounts sort first)"),
  "C16": ("DESIGN.md §4 C16",
          "TLA+ spec BlockCache: the Block wrapper as a cache state machine over object identities (slots, cached hash and bytes) with fresh values as facts; MC_BlockCache explores all call sequences of depth 5 on blocks of 0..3 transactions (identities distinct and stable) and generates every call sequence of bounded depth, which is replayed on real blocks from every constructor (message, bytes, bytes with trailing data, reader, message+bytes) plus random interleavings on large blocks; TLC trace validation checks values, identities, indices, out-of-range errors and transaction locations",
          "model checking of the abstract cache (10^6 states) plus TLC trace validation of enumerated and random accessor histories",
@@ -91,6 +91,14 @@ CLAIMS = {
          "TLC trace validation of totality / time / allocation for fifteen entry points on adversarially constructed inputs",
          "time and memory are measured, only bounded by the spec; hangs by deadline"),
 }
+
+# generic clauses of TraceBase that every trace validation carries
+COMMON = ("; generic clauses judged by TraceBase for every recorded call: byte-slice arguments sit in patterned spare capacity and a write behind "
+          "them is rejected, returned slices / strings / messages are read again at the end of the run")
+REPLAY = {k: "; stateless calls are replayed in other orders and from 8 goroutines at once" for k in
+          ("C01", "C02", "C03", "C04", "C05", "C06", "C07", "C12", "C13", "C14", "C17", "C18", "C19")}
+DEFERRED = {k: "; every object history is executed a second time without reading the object on the way and the final observations must agree "
+               "(result-depends-on-when-it-is-observed)" for k in ("C04", "C05", "C15", "C09", "C10", "C19")}
 
 NOT_YET = "check not built yet; see DESIGN.md for the planned TLA+ model"
 
@@ -112,7 +120,7 @@ def main():
                 "engine": "tlc-trace-validation",
                 "level_claimed": {"category": "model_checking", "text": text, "design_ref": ref},
                 "level_note": note,
-                "technique": tech,
+                "technique": tech + COMMON + REPLAY.get(pid, "") + DEFERRED.get(pid, ""),
             })
         else:
             na.append({"property_id": pid, "reason": NOT_YET})
